@@ -68,7 +68,7 @@ def histories(draw, tier):
                                   st.tuples(st.just("reiter"), st.integers(0, 6)).map(list),
                                   st.just(["close-current"])),
                         min_size=draw(st.sampled_from([0, 4, 6])), max_size=15 if tier == "quick" else 25))
-    return {"items": items, "key": key, "keyfl": draw(st.sampled_from(["def", "async", "obj"])),
+    return {"items": items, "key": key, "keyfl": draw(st.sampled_from(["def", "async", "obj", "eagercoro", "defcoro"])),
             "fl": draw(st.sampled_from(["list", "iter", "agen", "aclass"])), "ops": ops}
 
 
